@@ -171,7 +171,7 @@ func init() {
 func init() {
 	addProp(&PropSpec{
 		ID:          "C03",
-		Rules:       []string{"R-GRAMSYNC", "R-PREC", "R-KEYWORDS", "R-VOCAB", "R-OPTOKENS", "R-LEXRESET", "R-PRED", "R-NILNODE"},
+		Rules:       []string{"R-GRAMSYNC", "R-PREC", "R-KEYWORDS", "R-VOCAB", "R-OPTOKENS", "R-LEXRESET", "R-PRED", "R-NILNODE", "R-RUNEWRITE"},
 		Explanation: "'Every spelling parses to the tree the grammar assigns it' has a large structural part: the compiled parser must be the grammar (goyacc is re-run and the result compared as syntax trees), the grammar must be conflict-free so that the precedence declarations decide nesting, the keyword table must agree with the grammar's tokens and key names, keywords that the printer emits must lead back to the same constants, the token buffer must never be dropped without an error, and the predicate flag must be set by exactly one production. These are agreements between sibling tables (lexer, grammar, generated parser, printer), decided from the sources.",
 		Decided: []string{"R-GRAMSYNC: grammar.go = goyacc(grammar.y); 0 conflicts", "R-PREC: declared precedence/associativity ↔ operator constants (via the actions)",
 			"R-KEYWORDS: one lower-case spelling per keyword token, true/false/null case-sensitive, every keyword usable as key name", "R-VOCAB: printed keyword → lexer → token → production → same constant",
@@ -182,7 +182,7 @@ func init() {
 	})
 	addProp(&PropSpec{
 		ID:          "C02",
-		Rules:       []string{"R-ESC", "R-PAREN", "R-PREC", "R-VOCAB", "R-OPTOKENS", "R-MARSHAL", "R-PARSE-RESULT"},
+		Rules:       []string{"R-ESC", "R-PAREN", "R-OPPAREN", "R-PREC", "R-VOCAB", "R-OPTOKENS", "R-MARSHAL", "R-PARSE-RESULT", "R-RUNEWRITE"},
 		Explanation: "Necessary conditions of Parse(p.String()) = p that are visible in the shape of the printer and the lexer: every escape the printer can emit is decoded to the same code point; printed keywords lead back to the same constants; the printer's priorities equal the grammar's precedence levels; a node that can only carry an accessor chain inside parentheses prints those parentheses; the three marshalling forms are exactly String() and the unmarshalling forms hand their whole input to Parse.",
 		Decided: []string{"R-ESC: printer escape table ⊆ lexer escape table with equal meaning", "R-PAREN: parenthesisation before a trailing accessor chain (today: 6 known findings, D16)", "R-PREC: priority table = grammar levels",
 			"R-VOCAB: keyword vocabulary", "R-MARSHAL / R-PARSE-RESULT: Marshal* = String(), Unmarshal*/Scan = Parse of the whole input"},
